@@ -31,28 +31,29 @@ type ParamDecl struct {
 }
 
 type FuncContract struct {
-	Key       string // e.g. "MultCoin", "(*MerkleTree).GetPathByIndex", or full path for externs
-	Pkg       string // package path the contract file belongs to ("" for externs)
-	Extern    bool
-	Params    []ParamDecl // externs only (names for params)
-	Results   []string    // result names usable in ensures
-	Mode      string      // "int" (default) or "bv"
-	Requires  []*Clause
-	Ensures   []*Clause
-	Assigns   []*Clause // nil = not specified
-	HasAssign bool
-	Loops     map[int]*LoopSpec
-	Pure      bool
-	Trusted   bool // body not verified, contract assumed
-	Inline    bool
-	NoPanic   bool
-	Props     []string // property ids this function serves
-	Opts      map[string]string
-	File      string
-	Line      int
-	Ghosts    []*GhostStmt
-	Decreases *Clause
-	Holds     []HoldSpec // locks the caller must hold on entry
+	Key         string // e.g. "MultCoin", "(*MerkleTree).GetPathByIndex", or full path for externs
+	Pkg         string // package path the contract file belongs to ("" for externs)
+	Extern      bool
+	Params      []ParamDecl // externs only (names for params)
+	Results     []string    // result names usable in ensures
+	Mode        string      // "int" (default) or "bv"
+	Requires    []*Clause
+	Ensures     []*Clause
+	Assigns     []*Clause // nil = not specified
+	BodyAssigns []*Clause // wider frame the body is checked against (trusted contracts whose callers see a narrower frame)
+	HasAssign   bool
+	Loops       map[int]*LoopSpec
+	Pure        bool
+	Trusted     bool // body not verified, contract assumed
+	Inline      bool
+	NoPanic     bool
+	Props       []string // property ids this function serves
+	Opts        map[string]string
+	File        string
+	Line        int
+	Ghosts      []*GhostStmt
+	Decreases   *Clause
+	Holds       []HoldSpec // locks the caller must hold on entry
 }
 
 // HoldSpec: "holds <lock expr> R|W".
@@ -69,15 +70,16 @@ type GhostStmt struct {
 }
 
 type SpecFun struct {
-	Name    string
-	Params  []ParamDecl
-	Ret     string
-	Body    *Expr // nil for uninterpreted
-	Rec     bool
-	Line    int
-	File    string
-	Pred    bool
-	Opaque  bool // do not unfold automatically
+	Name   string
+	Params []ParamDecl
+	Ret    string
+	Body   *Expr // nil for uninterpreted
+	Rec    bool
+	Line   int
+	File   string
+	Pred   bool
+	Opaque bool   // do not unfold automatically
+	Pkg    string // declaring package path ("" for extern files)
 }
 
 type Axiom struct {
@@ -91,7 +93,7 @@ type Lemma struct {
 	Params    []ParamDecl
 	Requires  []*Clause
 	Ensures   []*Clause
-	Induction string // variable name, "" if none
+	Induction string  // variable name, "" if none
 	Uses      []*Expr // lemma instantiation hints: calls to other lemmas
 	Props     []string
 	Mode      string
@@ -106,9 +108,9 @@ type ContractSet struct {
 	Lemmas  []*Lemma
 	Consts  map[string]*Expr
 	Order   []string
-	Guarded map[string]string   // pkgpath.Type.field -> name of the lock field of the same object
-	Ghost   map[string]string   // ghost heap components: name -> sort of the per-object value
-	Closed  map[string]bool     // pkgpath.TypeName of interfaces treated as closed-world
+	Guarded map[string]string    // pkgpath.Type.field -> name of the lock field of the same object
+	Ghost   map[string]string    // ghost heap components: name -> sort of the per-object value
+	Closed  map[string]bool      // pkgpath.TypeName of interfaces treated as closed-world
 	TypeInv map[string][]*Clause // pkgpath.TypeName -> own-field object invariants
 }
 
@@ -312,6 +314,14 @@ func (cs *ContractSet) ParseContractFile(path, pkgPath string) error {
 				}
 				cur.Assigns = append(cur.Assigns, &Clause{Text: part, E: e, Line: l.no, File: path})
 			}
+		case "bodyassigns":
+			for _, part := range splitTop(rest, ',') {
+				e, err := ParseExpr(part)
+				if err != nil {
+					return fail(err)
+				}
+				cur.BodyAssigns = append(cur.BodyAssigns, &Clause{Text: part, E: e, Line: l.no, File: path})
+			}
 		case "loop":
 			ns, r2 := splitWord(rest)
 			n, err := strconv.Atoi(ns)
@@ -356,6 +366,7 @@ func (cs *ContractSet) ParseContractFile(path, pkgPath string) error {
 			if _, dup := cs.Specs[sf.Name]; dup {
 				return fail(fmt.Errorf("duplicate spec function %s", sf.Name))
 			}
+			sf.Pkg = pkgPath
 			cs.Specs[sf.Name] = sf
 		case "const":
 			name, r2 := splitWord(rest)
@@ -746,7 +757,7 @@ func ParseExpr(src string) (*Expr, error) {
 }
 
 func (ps *parser) peek() tok { return ps.toks[ps.p] }
-func (ps *parser) next() tok  { t := ps.toks[ps.p]; ps.p++; return t }
+func (ps *parser) next() tok { t := ps.toks[ps.p]; ps.p++; return t }
 func (ps *parser) isOp(s string) bool {
 	t := ps.peek()
 	return t.kind == "op" && t.text == s
@@ -903,6 +914,33 @@ func isCmpOp(s string) bool {
 
 func (ps *parser) parseTypeText() (string, error) {
 	var sb strings.Builder
+	if ps.isOp("(") {
+		// an SMT sort written as an s-expression, e.g. (Array Int Int)
+		depth := 0
+		for {
+			t := ps.next()
+			if t.kind == "eof" {
+				return "", fmt.Errorf("unterminated sort")
+			}
+			if t.text == "(" {
+				depth++
+				sb.WriteString("(")
+				continue
+			}
+			if t.text == ")" {
+				depth--
+				sb.WriteString(")")
+				if depth == 0 {
+					return sb.String(), nil
+				}
+				continue
+			}
+			if s := sb.String(); !strings.HasSuffix(s, "(") {
+				sb.WriteString(" ")
+			}
+			sb.WriteString(t.text)
+		}
+	}
 	for ps.isOp("*") || ps.isOp("[") {
 		if ps.isOp("[") {
 			ps.next()
@@ -1084,7 +1122,7 @@ func (ps *parser) parsePrimary() (*Expr, error) {
 					return nil, fmt.Errorf("bound variable expected at %d", n.pos)
 				}
 				pd := ParamDecl{Name: n.text, Type: "Int"}
-				if ps.peek().kind == "id" || ps.isOp("*") || ps.isOp("[") {
+				if ps.peek().kind == "id" || ps.isOp("*") || ps.isOp("[") || ps.isOp("(") {
 					ty, err := ps.parseTypeText()
 					if err != nil {
 						return nil, err
